@@ -86,3 +86,15 @@ Print Assumptions C19_generated_and_derived_keys_are_valid.
 Theorem C19_only_curve_arithmetic_is_assumed : all_suites (fun _ _ _ _ CS => CurveLaws CS -> GroupLaws CS).
 Proof. exact group_laws_20. Qed.
 Print Assumptions C19_only_curve_arithmetic_is_assumed.
+
+
+(* ---------------------------------------------------------------- at the 20 concrete suites
+   The theorems above that assume GroupLaws, restated for each of the 20 suites with CurveLaws as the only hypothesis
+   (HashLaws, CodecLaws, SizeLaws and the encoding half of GroupLaws are proved for them: Theory/GroupSplit.v). *)
+From OKE Require Import CodecsConcrete GroupSplit Concrete20.
+
+Definition C19_dh_symmetric_partial_statement {E Sc Pk Sk} (CS : Suite E Sc Pk Sk) : Prop :=
+  forall a b, vk CS a -> vk CS b -> k_dh (ke CS) (k_pub (ke CS) a) b = k_dh (ke CS) (k_pub (ke CS) b) a.
+Theorem C19_dh_symmetric_partial_at_each_of_the_20_suites : all_suites (fun _ _ _ _ CS => CurveLaws CS -> C19_dh_symmetric_partial_statement CS).
+Proof. apply at_the_20_suites_g. exact C19_dh_symmetric_partial. Qed.
+Print Assumptions C19_dh_symmetric_partial_at_each_of_the_20_suites.
